@@ -136,6 +136,78 @@ impl Pattern {
         regex.to_string()
     }
 
+    /// Returns the positions of the `|` characters that separate the alternatives of the group
+    /// nested `level` groups deep, and the position of the `)` that closes the first group of
+    /// that level (`None` for level 0).
+    fn alternation_bars(regex: &str, level: i32) -> (Vec<usize>, Option<usize>) {
+        let mut bars = vec![];
+        let mut depth = 0;
+        let mut in_class = false;
+        let mut escape = false;
+        for (i, c) in regex.char_indices() {
+            match c {
+                _ if escape => escape = false,
+                '\\' => escape = true,
+                ']' if in_class => in_class = false,
+                _ if in_class => {}
+                '[' => in_class = true,
+                '(' => depth += 1,
+                ')' if depth == level && level > 0 => return (bars, Some(i)),
+                ')' => depth -= 1,
+                '|' if depth == level => bars.push(i),
+                _ => {}
+            }
+        }
+        (bars, None)
+    }
+
+    /// If the pattern is a choice between alternatives - `a|b` at the top level, or a group
+    /// at its beginning of which exactly one alternative is matched: `(a|b)rest`, what the globs
+    /// `{a,b}rest` and `@(a|b)rest` are translated to - returns the alternatives as patterns
+    /// of their own (`a`, `b`; `arest`, `brest`). They may be of different kinds, e.g. one
+    /// starts with the root directory and another one does not.
+    pub fn alternatives(&self) -> Option<Vec<Pattern>> {
+        let src = self.src.as_str();
+        let (bars, _) = Self::alternation_bars(src, 0);
+        let (inner, rest) = if !bars.is_empty() {
+            (src, "")
+        } else {
+            let open_len = match src {
+                _ if src.starts_with("(?:") => 3,
+                _ if src.starts_with('(') && !src.starts_with("(?") => 1,
+                _ => return None,
+            };
+            let (_, close) = Self::alternation_bars(src, 1);
+            let close = close?;
+            let rest = &src[close + 1..];
+            // a quantifier makes it something else than a choice of exactly one
+            if rest.starts_with(['*', '+', '?', '{']) {
+                return None;
+            }
+            (&src[open_len..close], rest)
+        };
+        let (bars, _) = Self::alternation_bars(inner, 0);
+        if bars.is_empty() {
+            return None;
+        }
+        let opts = PatternOpts {
+            case_insensitive: self.anchored_regex.is_case_insensitive(),
+        };
+        let starts = std::iter::once(0).chain(bars.iter().map(|i| i + 1));
+        let ends = bars.iter().copied().chain(std::iter::once(inner.len()));
+        starts
+            .zip(ends)
+            .map(|(start, end)| {
+                let alternative = Self::group_alternation(&inner[start..end]) + rest;
+                let pattern = Pattern::regex_with(alternative.as_str(), &opts).ok()?;
+                Some(Pattern {
+                    glob: self.glob,
+                    ..pattern
+                })
+            })
+            .collect()
+    }
+
     /// Creates a `Pattern` that matches literal string. Case insensitive.
     /// Special characters in the string are escaped before creating the underlying regex.
     pub fn literal(s: &str) -> Pattern {
